@@ -30,6 +30,10 @@ FRAMES = [
 ]
 NK = len(FRAMES)
 K_ACK, K_NEXT, K_PING, K_PONG, K_COMPLETE, K_ERROR, K_NONJSON, K_BOGUS, K_NOTYPE, K_NODATA, K_NEXT2, K_EMPTYDATA = range(NK)
+# further malformed frames, explored as the frame right after the ack only (the handler does not depend on the position)
+FRAMES_EXT = FRAMES + ['[1]', '"text"', '{"type": 5}', '{"type": "next", "id": "1", "payload": null}', '{"type": null}']
+NK_EXT = len(FRAMES_EXT)
+K_ARRAY, K_STRING, K_TYPENUM, K_NULLPAYLOAD, K_TYPENULL = range(NK, NK_EXT)
 
 
 class Inp(BaseModel):
@@ -48,10 +52,13 @@ class LazyFrames:
         return True if self.i < self.n else False
 
     def pop(self):
-        k = pick(self.ks[self.i], NK)
+        if self.i == 1 and type(self.ks[1]) is int and self.ks[1] >= NK:
+            k = self.ks[1]  # the concrete second frame of a partition: one of the extended kinds
+        else:
+            k = pick(self.ks[self.i], NK)
         self.i += 1
         self.drawn.append(k)
-        return FRAMES[k]
+        return FRAMES_EXT[k]
 
 
 class FakeWS:
@@ -156,7 +163,8 @@ def spec(kinds, init_payload, variables_json):
             return sent, out, None
         elif k == K_ERROR:
             return sent, out, "GraphQLClientGraphQLMultiError"
-        elif k in (K_NONJSON, K_BOGUS, K_NOTYPE, K_NODATA):
+        elif k in (K_NONJSON, K_BOGUS, K_NOTYPE, K_NODATA, K_ARRAY, K_STRING, K_TYPENUM, K_NULLPAYLOAD, K_TYPENULL):
+            # not JSON / JSON that is not a message object / unknown, missing or non-string type / next without data
             return sent, out, "GraphQLClientInvalidMessageFormat"
         # ack / pong after the handshake: ignored
     return sent, out, None
@@ -231,9 +239,9 @@ def vars_check(variant: str, init_payload, var_kind) -> bool:
 
 def parts_source() -> str:
     """explicit harness functions (CrossHair needs real source): one per variant x kind of the second frame"""
-    out = ["from harness.C13_ws import NMAX, frames_check, vars_check", ""]
+    out = ["from harness.C13_ws import NMAX, frames_check, vars_check", ""]  # partitions: one per variant x kind of the second frame (extended kinds included)
     for v in VARIANTS:
-        for j in range(NK):
+        for j in range(NK_EXT):
             out.append(f"def check_frames_{v}_p{j}(k0: int, k2: int, k3: int, k4: int, k5: int, n: int) -> bool:\n"
                        f"    \"\"\"\n    pre: 0 <= n <= NMAX\n    post: _\n    \"\"\"\n"
                        f"    return frames_check({v!r}, {j}, k0, k2, k3, k4, k5, n)\n")
